@@ -20,7 +20,11 @@ def _decoy(n, a=7, b=3):
 def _flavour(sc):
     if sc["multi"]:
         return "multi"
-    return "con" if (sum(sc["val"]) + sc["first"] + sc["last"] + sum(sc["failed"])) % 2 else "obj"
+    if (sum(sc["val"]) + sc["first"] + sc["last"] + sum(sc["failed"])) % 2:
+        return "con"
+    # "objneg": the one ranked objective carries a NEGATIVE configured weight and the evaluator returns -val for it, so the
+    # sort value (weight x objective) is val as in the other flavours; the reported function value is negated when recorded
+    return "objneg" if (sc["n"] + sc["last"]) % 2 else "obj"
 
 
 def build_sort(sc, lead=0):
@@ -36,11 +40,11 @@ def build_sort(sc, lead=0):
         cfg["objectives"] = {"weights": [1.0, 5.0, 2.0], "realization_filters": [0, -1, 0]}
         cfg["realization_filters"] = [{"method": "sort-objective", "options": {"sort": [0, 2], **opts}}]
         col = ("obj", 0)
-    elif fl == "obj":
-        objs, cons = np.stack([_decoy(n), val], axis=1), None
-        cfg["objectives"] = {"weights": [1.0, 3.0], "realization_filters": [-1, 0]}
+    elif fl in ("obj", "objneg"):
+        objs, cons = np.stack([_decoy(n), val if fl == "obj" else -val], axis=1), None
+        cfg["objectives"] = {"weights": [1.0, 3.0] if fl == "obj" else [4.0, -1.0], "realization_filters": [-1, 0]}
         cfg["realization_filters"] = [{"method": "sort-objective", "options": {"sort": [1], **opts}}]
-        col = ("obj", 1)
+        col = ("obj" if fl == "obj" else "objneg", 1)
     else:
         objs, cons = _decoy(n)[:, None].copy(), np.stack([_decoy(n), val], axis=1)
         cfg["nonlinear_constraints"] = {"lower_bounds": [-5.0, -INF], "upper_bounds": [0.0, 0.0],
@@ -116,12 +120,13 @@ def drive_sort(sc):
     w = value = None
     if res is not None:
         r = res[0]
-        rows = r.realizations.objective_weights if col[0] == "obj" else r.realizations.constraint_weights
+        rows = r.realizations.objective_weights if col[0] != "con" else r.realizations.constraint_weights
         w = None if rows is None else rows[col[1]]
         if r.functions is None:
             outcome = "nofunctions"
         else:
-            value = (r.functions.objectives if col[0] == "obj" else r.functions.constraints)[col[1]]
+            value = (r.functions.objectives if col[0] != "con" else r.functions.constraints)[col[1]]
+            value = -value if col[0] == "objneg" else value
     trace.append({**base, "ev": "Sort", "via": "e2e", "outcome": outcome,
                   "w": nums(w) if w is not None else [], "value": num(value)})
     # the same through a combined function + gradient evaluation (what speculative optimizers request)
@@ -138,12 +143,13 @@ def drive_sort(sc):
         w = value = None
         if res is not None:
             r = res[0]
-            rows = r.realizations.objective_weights if col[0] == "obj" else r.realizations.constraint_weights
+            rows = r.realizations.objective_weights if col[0] != "con" else r.realizations.constraint_weights
             w = None if rows is None else rows[col[1]]
             if r.functions is None:
                 outcome2 = "nofunctions"
             else:
-                value = (r.functions.objectives if col[0] == "obj" else r.functions.constraints)[col[1]]
+                value = (r.functions.objectives if col[0] != "con" else r.functions.constraints)[col[1]]
+                value = -value if col[0] == "objneg" else value
         trace.append({**base, "ev": "Sort", "via": "e2e", "outcome": outcome2,
                       "w": nums(w) if w is not None else [], "value": num(value)})
     n, nsucc = sc["n"], int((~failed).sum())
